@@ -89,13 +89,19 @@ def get_full_type_name(node: CallExpr) -> str:
     return ""
 
 
-def inject_stdlib_defaults(node: CallExpr, args: list[Argument]) -> None:
+def get_stdlib_defaults(node: CallExpr, args: list[Argument]) -> dict[int, Expression]:
+    # The nodes of the typeshed are shared by every file (and every call) of a run: the defaults
+    # are looked up on the side instead of being written into them.
+    overrides: dict[int, Expression] = {}
+
     if defaults := BUILTIN_MAPPINGS.get(get_full_type_name(node)):
         for default, arg in zip(defaults, args):
             if default == Ellipsis:
                 continue
 
-            arg.initializer = default  # type: ignore
+            overrides[id(arg)] = default  # type: ignore
+
+    return overrides
 
 
 ZippedArg = tuple[str | None, Expression, ArgKind]
@@ -118,7 +124,7 @@ def check_func(caller: CallExpr, func: FuncDef, errors: list[Error]) -> None:
 
     lookup = dict(args)
 
-    inject_stdlib_defaults(caller, [x[1] for x in args])
+    stdlib_defaults = get_stdlib_defaults(caller, [x[1] for x in args])
 
     caller_args = zip(caller.arg_names, caller.args, caller.arg_kinds)
 
@@ -134,12 +140,14 @@ def check_func(caller: CallExpr, func: FuncDef, errors: list[Error]) -> None:
 
         if kind == ArgKind.ARG_NAMED:
             try:
-                default = lookup[name].initializer
+                arg = lookup[name]
             except KeyError:
                 continue
 
+            default = stdlib_defaults.get(id(arg), arg.initializer)
+
         elif kind == ArgKind.ARG_POS:
-            default = args[i][1].initializer
+            default = stdlib_defaults.get(id(args[i][1]), args[i][1].initializer)
 
         else:
             return  # pragma: no cover
